@@ -2,7 +2,7 @@
 import json, os, sys, time
 from .common import *
 from .engine import *
-from . import cratebuild, corpus_ctor, corpus_extra, corpus_serde, corpus_arb, verdict, corpus_verdict, corpus_c05, audit
+from . import cratebuild, corpus_ctor, corpus_extra, corpus_serde, corpus_arb, verdict, corpus_verdict, corpus_c05, audit, corpus_nostd
 
 ASSUME_COMMON = ["lowercase/uppercase meaning = this toolchain's str::to_lowercase/to_uppercase",
                  "NaN vs bound validators: either verdict accepted (DESIGN section 3)",
@@ -496,7 +496,57 @@ def check_c05(tier, seed):
     return finish(res)
 
 
-CHECKS = {"C05": check_c05, "C08": check_c08, "C09": check_c09, "C14": check_c14, "C04": check_c04, "C10": check_c10, "C01": check_c01, "C03": check_c03, "C06": check_c06, "C07": check_c07, "C11": check_c11, "C12": check_c12, "C13": check_c13, "C16": check_c16}
+def check_c15(tier, seed):
+    res = Result("C15", tier, seed)
+    res.rule = ("a generated #![no_std] library crate (own workspace and target dir; nutype with default-features = false + serde + arbitrary; serde default-features = false) holding "
+                "integer / float / other ([i32;3], user struct, alloc Vec, generic W<X: ..>) declarations x guard variants {none, sanitizer, bounds with const, finite, predicate, custom "
+                "error, sanitizer+bounds} x every derivable trait singly (with prerequisites) and all together x {default, const_fn}; every declaration must be in the clean build "
+                "(compile-verdict monitor); three deliberately std-using control declarations must be rejected, which shows `std` really is absent from the extern prelude. "
+                "A case is one declaration; non-trivial = its verdict was compared with the expectation.")
+    cases = corpus_nostd.build(tier, seed)
+    deps = 'serde = { version = "1.0.150", default-features = false, features = ["derive", "alloc"] }\narbitrary = { version = "1.3.0" }\n'
+    vc = verdict.VerdictCrate("c15-%s" % tier, ["serde", "arbitrary"], default_features=False, no_std=True, extra_deps=deps, nshards=8)
+    try:
+        out, info = verdict.run_verdicts(vc, cases, log=log)
+    except Inconclusive as e:
+        res.inconclusive.append(str(e))
+        return finish(res)
+    cells = set()
+    controls_rejected = 0
+    for c in cases:
+        o = out[c.id]
+        res.evaluations += 1
+        res.classes.add(c.id)
+        key = "%s->%s" % (c.expect, o["verdict"])
+        res.hist[key] = res.hist.get(key, 0) + 1
+        if c.expect == "MUST_REJECT":
+            if o["verdict"] == "rejected":
+                controls_rejected += 1
+            else:
+                res.inconclusive.append("std-using control %s compiles: the harness crate is not effectively no_std" % c.rule)
+            continue
+        parts = c.rule.split(":")
+        cells.add((parts[1], parts[-1]) if parts[0] == "single" else (parts[0], parts[1]))
+        if o["verdict"] == "rejected":
+            codes = ",".join(sorted(set(str(e["code"]) for e in o["errors"])))
+            fam = parts[1] if parts[0] in ("single", "all", "const_fn") else "generic"
+            trait = parts[-1] if parts[0] in ("single", "generic") else parts[0]
+            res.violations.append(verdict_witness(res, c, "rejected: %s" % json.dumps(o["errors"])[:500], "not-no_std-clean:%s:%s:%s" % (fam, trait, codes)))
+        if len(res.samples) < 6 and res.evaluations % 71 == 0:
+            res.samples.append({"declaration": c.body, "verdict": o["verdict"]})
+    res.declarations = len(cases)
+    res.guard("std_using_controls_rejected", controls_rejected, 3)
+    for fam in ("int", "float", "other"):
+        for t in ("FromStr", "Display", "Serialize", "Deserialize", "Arbitrary", "TryFrom", "Default", "Debug"):
+            if fam == "other" and t in ("FromStr", "Display"):
+                continue
+            res.guard("cell[%s,%s]" % (fam, t), 1 if (fam, t) in cells else 0, 1)
+    res.assumptions += ["host target only (no bare-metal target installed): name resolution of ::std paths and std-prelude names fails identically because a no_std crate has no `std` in its extern prelude",
+                        "rustc >= 1.81 (ERROR_IN_CORE branch); the pre-1.81 branch cannot be exercised here"]
+    return finish(res)
+
+
+CHECKS = {"C15": check_c15, "C05": check_c05, "C08": check_c08, "C09": check_c09, "C14": check_c14, "C04": check_c04, "C10": check_c10, "C01": check_c01, "C03": check_c03, "C06": check_c06, "C07": check_c07, "C11": check_c11, "C12": check_c12, "C13": check_c13, "C16": check_c16}
 
 
 def run_check(prop, tier, seed):
